@@ -45,4 +45,49 @@ on call "k8s.io/client-go/kubernetes/typed/core/v1.PersistentVolumeClaimInterfac
    do gWTplName = seqset(gWTplName, name, pvc.Name)
    do gWSts = seqset(gWSts, name, sts.Name)
    assert[C18] @deleted_name_is_of_a_removed_ordinal name == sprintf("%s-%s-%d", 3, pvc.Name, sts.Name, i) && expect <= i && i < old(gReplicas)
+
+// ---------- listing the shards of a StatefulSet in ordinal order (C18) ----------
+// the pod list the lister returned (ghost), and for every pod name stored in the lookup table the index of the pod it came from
+ghost global gPods ref[k8s.io/api/core/v1.PodList]
+ghost global gWPod seq[int]
+contract field shardManager.getPods(lb)
+  ensures result1 == nil ==> result0 != nil && result0 == gPods
+  modifies gPods, k8s.io/api/core/v1.PodList.* at {}
+
+on insert_local "map[string]k8s.io/api/core/v1.Pod"(m, k, v) in shardManager.Shards
+   do gWPod = seqset(gWPod, k, idx1)
+
+// the k-th shard is built from the pod whose name is <set>-<k>, wherever that pod is in the list
+pred shardOfOrdinal(s, sh, k) = forall j in 0..len(gPods.Items) :: (gPods.Items[j].Name == sprintf("%s-%d", 2, s.sts.Name, k, 0) ==>
+      (sh.ID == sprintf("%s-%d", 2, s.sts.Name, k, 0)
+       && (exists i in 0..len(gPods.Items) :: gPods.Items[i].Name == sh.ID
+              && sh.url == sprintf("http://%s:%d", 2, gPods.Items[i].Status.PodIP, s.port, 0) && sh.Ready == (gPods.Items[i].Status.PodIP != ""))))
+
+contract shardManager.Shards
+  requires s != nil && s.sts != nil && s.sts.Spec.Selector != nil && s.getPods != nil
+  ensures[C18] @one_shard_per_pod result1 == nil ==> len(result0) == len(gPods.Items)
+  ensures[C18] @shards_in_ordinal_order result1 == nil ==> (forall k in 0..len(result0) :: result0[k] != nil && shardOfOrdinal(s, result0[k], k))
+  modifies gPods, gWPod, k8s.io/api/core/v1.PodList.* at {}, tkestack.io/kvass/pkg/shard.Shard.* at {}, elems(k8s.io/api/core/v1.PodList.Items) at {}
+  loop 1 invariant pods == gPods && pods != nil && fresh(ps) && ps != nil
+  loop 1 invariant forall nm in ps :: (0 <= gWPod[nm] && gWPod[nm] < len(gPods.Items) && gPods.Items[gWPod[nm]].Name == nm && ps[nm].Name == nm && ps[nm].Status.PodIP == gPods.Items[gWPod[nm]].Status.PodIP)
+  loop 1 invariant forall j in 0..idx1 :: gPods.Items[j].Name in ps
+  loop 2 invariant pods == gPods && pods != nil && fresh(ps) && ps != nil
+  loop 2 invariant forall nm in ps :: (0 <= gWPod[nm] && gWPod[nm] < len(gPods.Items) && gPods.Items[gWPod[nm]].Name == nm && ps[nm].Name == nm && ps[nm].Status.PodIP == gPods.Items[gWPod[nm]].Status.PodIP)
+  loop 2 invariant forall j in 0..len(gPods.Items) :: gPods.Items[j].Name in ps
+  loop 2 invariant len(ret) == idx2 && fresh(ret)
+  loop 2 invariant[C18] forall k in 0..idx2 :: ret[k] != nil && fresh(ret[k]) && allocated(ret[k]) && shardOfOrdinal(s, ret[k], k)
+
+// ---------- a StatefulSet whose rolling update is in progress is not coordinated (C18) ----------
+contract field ReplicasManager.listStatefulSets(ctx, opts)
+  ensures result1 == nil ==> result0 != nil
+  modifies k8s.io/api/apps/v1.StatefulSetList.* at {}
+
+contract ReplicasManager.Replicas
+  requires g != nil && g.listStatefulSets != nil && g.stsUpdatedTime != nil
+  ensures[C18] @rolling_update_in_progress_is_skipped result1 == nil ==> (forall m in result0 :: isptr(m, shardManager) && asptr(m, shardManager) != nil && asptr(m, shardManager).sts != nil
+        && asptr(m, shardManager).sts.Status.Replicas == asptr(m, shardManager).sts.Status.UpdatedReplicas)
+  modifies mapof(ReplicasManager.stsUpdatedTime), shardManager.* at {}, k8s.io/api/apps/v1.StatefulSet.* at {}, k8s.io/api/apps/v1.StatefulSetList.* at {}, gClock
+  loop 1 invariant fresh(ret)
+  loop 1 invariant[C18] forall m in ret :: isptr(m, shardManager) && asptr(m, shardManager) != nil && fresh(asptr(m, shardManager)) && allocated(asptr(m, shardManager)) && asptr(m, shardManager).sts != nil && fresh(asptr(m, shardManager).sts) && allocated(asptr(m, shardManager).sts)
+        && asptr(m, shardManager).sts.Status.Replicas == asptr(m, shardManager).sts.Status.UpdatedReplicas
 @*/
